@@ -263,7 +263,7 @@ PROPS["C07"] = {
     "rule": "admissible (dt2, sf, sp, P, offset) with P at both ends, powers of two +-1 and random; update instants aligned to 2^dt2; sf-dt2 <= 13 (17 thorough)",
 }
 PROPS["C08"] = {
-    "families": ["pid"],
+    "families": ["pid", "repr"],
     "n_quick": 60000, "n_thorough": 600000,
     "clauses_proved": [
         "over any field: the built coefficients realise (g0+g1 D+g2 D^2)/(l0+l1 D+l2 D^2), D = 1 - z^-1, at every (complex) frequency, with g_i the period-scaled gains and l_i = g_i/limit_i, l = 1 for P (pid_transfer, pid_transfer_ratio, pid_transfer_complex, pid_transfer_signs, pid_gains_order_P/I/I2, pid_lsum_ge_one)",
@@ -274,11 +274,11 @@ PROPS["C08"] = {
         "f32/f64/fixed-point evaluation of the builder (IEEE rounding, powi) against the proved rational formula; Pid::build's copysign / NaN-to-infinity glue",
     ],
     "level_text": "The transfer-function identity and the exact-kernel clause are theorems over exact field arithmetic and an abstract quantiser; floating-point rounding is outside the theorems and is tied by tolerance correspondence and explored natively.",
-    "level_note": "Model: pidGl, pidBuild (IdspModel/Model/Coeff.lean), an unset limit is `none` (g/inf = 0). Not modelled: Pid::build (units, copysign), serde/miniconf.",
+    "level_note": "Model: pidGl, pidBuild (IdspModel/Model/Coeff.lean), an unset limit is `none` (g/inf = 0). Pid::build (scaling, copysign, NaN limit = infinity, set_input_offset, limits) and BiquadRepr::Ba::build are modelled in the driver only (Lean Float, op family repr): translation-validated glue, no theorems. Not modelled: serde/miniconf, FilterRepr (private fields, reachable through serde only).",
     "rule": "orders x set/unset gain and limit masks x 18 decades x periods; transfer function compared cross-multiplied at random frequencies; kernel exactness for f32 f64 i16 i32 i64",
 }
 PROPS["C09"] = {
-    "families": ["coeff"],
+    "families": ["coeff", "repr"],
     "n_quick": 100000, "n_thorough": 1000000,
     "clauses_proved": [
         "over the reals, for all nine builders: DC / Nyquist / f0 response identities, allpass |H| = |gain| at every frequency, I/HO pole exactly at z = 1 (lowpass_response ... iho_response, polyZi_on_circle)",
@@ -326,7 +326,7 @@ PROPS["C19"] = {
 }
 PROPS["C20"] = {
     "families": ["osub", "satscale", "unwrap", "accu", "dsm", "pll", "lowpass", "cic_dec", "cic_int", "num", "biquad",
-                 "cossin", "atan2", "complex", "lockin", "rpll", "sweep", "hbf", "fbiquad", "coeff", "pid", "glue"],
+                 "cossin", "atan2", "complex", "lockin", "rpll", "sweep", "hbf", "fbiquad", "coeff", "pid", "glue", "repr"],
     "n_quick": 20000, "n_thorough": 200000,
     "clauses_proved": [
         "per entry point: the checked model returns ok on the documented domain (c20_cossin, c20_atan2, c20_polar, c20_abs_sqr_log2, c20_cmul, c20_cmul_complex, c20_pll, c20_rpll, c20_lowpass1, c20_saturating_scale, c20_dsm, c20_cic_interpolate, c20_macc, c20_mul_div, c20_sweep_next); CIC decimator, Unwrapper, Accu, overflowing_sub, PLL are total functions of the model (explicitly wrapping code)",
